@@ -171,7 +171,7 @@ func main() {
 		},
 		Cases: func(tier string) int {
 			if tier == "thorough" {
-				return 8000
+				return 5120
 			}
 			return 256
 		},
